@@ -173,8 +173,20 @@ fn main() {
                         for (i, n) in names.iter().enumerate() {
                             let want = (FUNCS[i].1)(*c);
                             let rule_name = format!("p_{n}");
-                            let v = vm.parse(&rule_name, &buf).map(|p| p.as_str().len() == buf.len()).unwrap_or(false);
-                            let g = GenParser::parse(RULES[i].1, &buf).map(|p| p.as_str().len() == buf.len()).unwrap_or(false);
+                            let v = match vcore::catch(|| vm.parse(&rule_name, &buf).map(|p| p.as_str().len() == buf.len()).unwrap_or(false)) {
+                                Ok(v) => v,
+                                Err(p) => {
+                                    viol(&mut st, "vm-panics", n, *c, format!("VM panicked: {p}"));
+                                    continue;
+                                }
+                            };
+                            let g = match vcore::catch(|| GenParser::parse(RULES[i].1, &buf).map(|p| p.as_str().len() == buf.len()).unwrap_or(false)) {
+                                Ok(v) => v,
+                                Err(p) => {
+                                    viol(&mut st, "generated-parser-panics", n, *c, format!("generated parser panicked: {p}"));
+                                    continue;
+                                }
+                            };
                             st.inc("evaluations");
                             if want {
                                 st.inc("distinct_nontrivial");
